@@ -272,8 +272,10 @@ func (v Violation) Key() string { return v.Property + ":" + v.Kind }
 
 // World is everything that exists in one run.
 type World struct {
-	C   *Chooser
-	Sim *simrt.Sim
+	bareSet bool // an RPC without any request metadata is in this run ...
+	bareID  int  // ... and this is its plan id
+	C       *Chooser
+	Sim     *simrt.Sim
 
 	mu     sync.Mutex
 	connID int
